@@ -21,7 +21,9 @@ Ev == Trace[l]
 
 New    == Ev.e = "new"    /\ S' = S0(Ev.authset)
 \* a configuration change returns (it never wedges the server)
-Keys   == Ev.e = "keys"   /\ Ev.err = "" /\ S' = SetKeys(S, Ev.keys)
+\* stale: an entry of the replaced configuration is still in the key table after the reload has come to rest
+NotStale == ("stale" \in DOMAIN Ev) => ~Ev.stale
+Keys   == Ev.e = "keys"   /\ Ev.err = "" /\ NotStale /\ S' = SetKeys(S, Ev.keys)
 Dev    == Ev.e = "dev"    /\ Ev.err = "" /\ S' = SetDev(S, Ev.on)
 Storm  == Ev.e = "storm"  /\ Ev.err = "" /\ S' = SetDev(SetKeys(S, Ev.keys), Ev.on)
 Auth   == Ev.e = "auth"   /\ S' = SetAuth(S, Ev.mode, Ev.r, Ev.w)
